@@ -2,6 +2,11 @@ import Enc.Model.ProtoRewrite
 import Enc.Spec.Protobuf
 import Enc.Lemmas.ProtoRewriteSpec
 import Enc.Lemmas.ProtoTemplateFlat
+import Enc.Lemmas.ProtoTemplateNested
+import Enc.Lemmas.ProtoTemplateBridge
+import Enc.Lemmas.ProtoTemplatePresCheck
+import Enc.Lemmas.ProtoTemplateBridge2
+import Enc.Lemmas.ProtoTemplateRulesExamples
 /-!
 # C19 — proto rewriters replace exactly the templated fields
 Property theorems only.
@@ -102,16 +107,30 @@ The correspondence run (`proto.tmpltree`, `proto.tmplvalue`, harness/c19value.go
 the tree the REAL parser builds with the model's tree, the real output with `rewriteT`, and the decoded output with
 `Spec.ProtoTemplate.applyTemplate` (the full value-level specification: nested, repeated, map, BitOr).
 
-FULL STATEMENT (`template_rewrite_value`, checked by the correspondence run on every case, proved below for the flat
-fragment): for every message type `ty`, template `j` accepted by `parseTemplate`, rules, and input `b` with
-`Spec.Protobuf.decode ty b = some v`:  `rewriteT F (parseTemplate (typeOf ty) j rules) b = .ok out` and
-`norm (decode ty out) = norm (applyTemplate pf ty j rules v)`, untemplated records carried over in order.
-Proved: `template_rewrite_value_flat` — the complete chain `parseTemplate` → `rewriteT` → reference decoder for flat messages
-with ANY number of templated scalar fields (via the table form `table_rewrite_value`, the leaf encoders `template_leaf_value`,
-and the bookkeeping of `parseMembers` / `insertEnt`); `template_rewrite_value_partial` is its one-member instance with a
-closed-form result. Missing for the full statement: the leaf kinds float/double/fixed/zig-zag, and the nested / repeated / map cases
-(`embeddedMerge`, `replacement`), for which the record-level theorems above (`rewrite_spec`, `merge_sees_all_pieces`) hold
-but the step to values is only checked by the correspondence run.
+FULL STATEMENT (checked by the correspondence run on every case): for every message type `ty`, template `j` accepted by
+`parseTemplate`, rules, and input `b` with `Spec.Protobuf.decode ty b = some v`:  `rewriteT F (parseTemplate (typeOf ty) j rules) b = .ok out`
+and `norm (decode ty out) = norm (applyTemplate pf ty j rules v)`, untemplated records carried over in order.
+PROVED (rules = [], i.e. without `BitOr` / nested `RewriterRules`):
+* `template_leaf_value` — all 15 leaf kinds (bool, (s)int32/64, uint32/64, (s)fixed32/64, float, double — relative to `pf` —, string, bytes);
+* `table_rewrite_value_general` — the value-level step for ANY message type and ANY table of template rewriters (entries replaced by
+  constants for the fixed input: no `Sim`; fuel-free positional reference decoder `foldG fieldD`);
+* `template_rewrite_value` (= `template_rewrite_value_nested`) — the complete chain `parseTemplate` → `rewriteT` → reference decoder for
+  the universe `PresN d`: singular scalars of the 15 kinds, singular sub-messages (plain or behind pointers, arriving in ANY number of
+  occurrences: the merged old value is kept, `{"sub":{"a":9}}`), repeated scalars and repeated messages (`[]Sub`, `[]*Sub`; the new list is exactly the
+  template's list — except that zero-valued elements are missing: recorded known finding `proto-template-repeated-zero`, visible in
+  `ElemVals.skip` / `ElemMsgs.skip` / `MapVals.skip`; `elemVals_all`: without zero elements the list is the template's), maps with
+  string / numeric / bool keys and scalar or message values (entries rebuilt from the template alone), nested to ANY depth `d`; the
+  result is specified positionwise and recursively by `TRes`;
+* `template_rewrite_value_spec` — the same chain against the independent specification `Spec.ProtoTemplate.applyTemplate`, up to the
+  comparison form `norm`, for singular scalars, singular sub-messages (`Sub`, `*Sub`), repeated scalars, repeated messages (`[]Sub`, `[]*Sub`)
+  and `map[string]scalar`, any depth (`PresB`; `ZeroFree` excludes
+  exactly the known finding; `PFnz`: no `-0` float literal);
+* `template_rewrite_value_flat`, `template_rewrite_value_partial` — the earlier flat forms (closed-form result for one member).
+* `template_rewrite_value_bitor_flat` — WITH `BitOr` rules, flat messages (`Once`: a ruled field occurs at most once in the input;
+  `bitor_first_occurrence_wrong`: otherwise the code ORs into the FIRST occurrence where the field's value is the LAST — new finding).
+Missing for the full statement: `BitOr` / nested `RewriterRules` below the top level of nested messages, bytes-keyed maps, and the
+step from `TRes` to `applyTemplate` for maps with message values or non-string keys and for longer pointer / named chains (checked by
+the correspondence run).
 `template_not_modified`: trivial in a value model — `parseTemplate` and `rewriteT` are pure functions of immutable lists;
 that the Go code does not write to the template or input slices is checked in-process by every harness case. -/
 
@@ -140,28 +159,31 @@ theorem table_rewrite_value (fs : Fields) (hfs : flat fs = true) (len : Nat) (en
   Lemmas.ProtoTemplate.message_rewrite_value fs hfs len ents I E hok hne hT b res hsz hdec
 
 open Lemmas.ProtoTemplate Lemmas.ProtoRewriteSpec Spec.Protobuf in
-/-- **leaf encoders** (`parseRewriteTemplateBool/Int32/Int64/Uint32/Uint64/String/Bytes` on plain fields; Uint32 as repaired by /repo 1e0f504): no denotation ⇒ the json
-error; zero value ⇒ no rewriter; any other value ⇒ a `raw` one-record message that the reference decoder reads back as
-that value -/
-theorem template_leaf_value (pf : PF) (t : Ty) (o : FieldOpt) (k : PKind) (hk : kindOf t o = some k) (f : Nat) (h0 : 0 < f)
+/-- **leaf encoders, ALL 15 kinds** (`parseRewriteTemplateBool/Int32/Int64/Sint32/Sint64/Uint32/Uint64/Fixed32/Fixed64/Sfixed32/
+Sfixed64/Float/Double/String/Bytes`; `kindOf` = the kind of a Go field type with its varint / zigzag / fixed tag options; Uint32 as
+repaired by /repo 1e0f504): no denotation ⇒ the json error; zero value ⇒ no rewriter; any other value ⇒ a `raw` one-record
+message that the reference decoder reads back as that value. Floats are relative to the shared parameter `pf`
+(`strconv.ParseFloat` as IEEE bits; `PFok pf`: it returns values of the requested width); a float member `-0` is elided like
+`0` (Go: `v == 0`) and reads back as `+0` (`floatRead`). -/
+theorem template_leaf_value (pf : PF) (hpf : PFok pf) (t : Ty) (o : FieldOpt) (k : PKind) (hk : kindOf t o = some k) (f : Nat) (h0 : 0 < f)
     (h1 : f < 2 ^ 61) (j : Model.Json.GV) (hlen : ∀ s, gvString j = some s → s.length < 2 ^ 64) :
-    match leafVal k j with
+    match leafVal pf k j with
     | none => parseLeaf pf k f j = .err "json"
     | some x =>
       (parseLeaf pf k f j = .ok none ∧ x = Spec.Protobuf.zeroOf t) ∨
       (∃ b w, parseLeaf pf k f j = .ok (some (.raw b)) ∧ b.length ≤ 30 + strLen j ∧ Valid b [(f, w)] ∧
         sdec t o w = some x) :=
-  Lemmas.ProtoTemplate.leaf_sem pf t o k hk f h0 h1 j hlen
+  Lemmas.ProtoTemplate.leaf_sem pf hpf t o k hk f h0 h1 j hlen
 
 open Lemmas.ProtoTemplate Spec.Protobuf in
 /-- **`template_rewrite_value`, flat messages, ANY number of templated scalar fields.** `fs` a Go message type whose fields
-are singular scalars, `tfs` what TypeOf presents for it (`PresOK`: every named field is a singular scalar of a proved kind —
-bool, int32, int64, uint32, uint64, string, bytes, plain wire form — known to the reference decoder under the same number;
+are singular scalars, `tfs` what TypeOf presents for it (`PresOK`: every named field is a singular scalar of one of the 15
+kinds — `kindOf`: bool, (s)int32/64, uint32/64, (s)fixed32/64, float, double, string, bytes — known to the reference decoder under the same number;
 names determine numbers), `ms` the members of the template object (distinct keys, as the json decoder delivers them). If
 `ParseRewriteTemplate` accepts the template (`tree`), then on EVERY input `b` the reference decoder accepts (any field order,
 repeated occurrences, unknown fields) the rewriter returns `out`, the reference decoder accepts `out`, every templated field
 reads as the value its member denotes, and every other position is unchanged. -/
-theorem template_rewrite_value_flat (pf : PF) (fs : Fields) (hfs : flat fs = true) (tfs : TFields) (hP : PresOK fs tfs)
+theorem template_rewrite_value_flat (pf : PF) (hpf : PFok pf) (fs : Fields) (hfs : flat fs = true) (tfs : TFields) (hP : PresOK fs tfs)
     (ms : Model.Json.GMs) (hnd : KeysNodup ms)
     (hstr : ∀ k jv s, GMem k jv ms → gvString jv = some s → s.length < 2 ^ 64)
     (fuel : Nat) (hfuel : gmLen ms + 4 ≤ fuel) (tree : RwT)
@@ -171,29 +193,106 @@ theorem template_rewrite_value_flat (pf : PF) (fs : Fields) (hfs : flat fs = tru
     ∃ out res', (∀ F, b.length + gmLen ms + 4 ≤ F → rewriteT F tree b = .ok out) ∧
       decode (.struct fs) out = some (.struct res') ∧ res'.length = fs.length ∧
       (∀ k jv n kind i o t, GMem k jv ms → lookupFieldByName tfs k = some (n, false, .prim kind) →
-        findField fs n = some (i, o, t) → ∃ x, leafVal kind jv = some x ∧ valsGet res' i = x) ∧
+        findField fs n = some (i, o, t) → ∃ x, leafVal pf kind jv = some x ∧ valsGet res' i = x) ∧
       (∀ j, (∀ k jv n kind i o t, GMem k jv ms → lookupFieldByName tfs k = some (n, false, .prim kind) →
         findField fs n = some (i, o, t) → i ≠ j) → valsGet res' j = valsGet res j) :=
-  Lemmas.ProtoTemplate.template_rewrite_value_flat pf fs hfs tfs hP ms hnd hstr fuel hfuel tree hparse b res hsz hdec
+  Lemmas.ProtoTemplate.template_rewrite_value_flat pf hpf fs hfs tfs hP ms hnd hstr fuel hfuel tree hparse b res hsz hdec
 
 open Lemmas.ProtoTemplate Spec.Protobuf in
 /-- **END TO END (partial: one templated scalar field of a flat message).** The template `{k: jv}` names field `number` of
 kind `kind` (as TypeOf presents it), which the reference decoder knows at position `i` with Go type `t`; `jv` denotes `x`.
 Then `ParseRewriteTemplate` succeeds, and on EVERY input the reference decoder accepts the rewriter returns a message that
 decodes to the input's value with position `i` replaced by `x` — nothing else changed. -/
-theorem template_rewrite_value_partial (pf : PF) (fs : Fields) (hfs : flat fs = true) (tfs : TFields) (k : Bytes)
+theorem template_rewrite_value_partial (pf : PF) (hpf : PFok pf) (fs : Fields) (hfs : flat fs = true) (tfs : TFields) (k : Bytes)
     (jv : Model.Json.GV) (number i : Nat) (o : FieldOpt) (t : Ty) (kind : PKind)
     (hname : lookupFieldByName tfs k = some (number, false, .prim kind))
     (hfind : findField fs number = some (i, o, t)) (hkind : kindOf t o = some kind)
     (h0 : 0 < number) (h1 : number < 2 ^ 61) (hlen : ∀ s, gvString jv = some s → s.length < 2 ^ 32)
-    (x : Val) (hx : leafVal kind jv = some x)
+    (x : Val) (hx : leafVal pf kind jv = some x)
     (b : Bytes) (res : Vals) (hb : b.length < 2 ^ 24)
     (hdec : decode (.struct fs) b = some (.struct res)) (fuel : Nat) :
     ∃ tree out, parseTemplate pf (fuel + 4) (.msg tfs) (.obj (.cons k jv .nil)) [] = .ok tree ∧
       (∀ F, b.length + 8 ≤ F → rewriteT F tree b = .ok out) ∧
       decode (.struct fs) out = some (.struct (valsSet res i x)) :=
-  Lemmas.ProtoTemplate.template_rewrite_value_single pf fs hfs tfs k jv number i o t kind hname hfind hkind h0 h1 hlen x hx
+  Lemmas.ProtoTemplate.template_rewrite_value_single pf hpf fs hfs tfs k jv number i o t kind hname hfind hkind h0 h1 hlen x hx
     b res hb hdec fuel
+
+open Lemmas.ProtoTemplate Lemmas.ProtoSpecFuel Spec.Protobuf in
+/-- **VALUE LEVEL, general table form: ANY message type, ANY table of template rewriters** (`embeddedMerge`, `replacement`, `bitOr`
+included). The reference decoder is the positional fold `foldG fieldD` (`hD_fieldD`; fuel-free: nested messages merge, repeated
+fields append, maps insert). For a FIXED input `b` the loop hands entry `n` the payload `payloadOf … n b` (merged pieces of the first
+occurrence, `[]` if absent); `A n` = what the entry returns on it. If `A n` is a valid message whose records set position `I n` to
+`E n` (decoded from the initial value of the position; `none`: writes nothing), then the rewriter returns a message the reference
+decoder accepts, with exactly the templated positions replaced and every other position unchanged. (Proof: every entry is replaced
+by the constant `raw (A n)` — `rawify` — so the record-level theorem holds with equality.) -/
+theorem table_rewrite_value_general (fs : Fields) (len : Nat) (ents : List (Nat × RwT)) (b : Bytes) (res : Vals)
+    (hdec : decode (.struct fs) b = some (.struct res))
+    (A : Nat → Bytes) (G0 : Nat) (hlt : ∀ p, p ∈ ents → p.1 < len) (hnd : (ents.map Prod.fst).Nodup)
+    (hA : ∀ n r, (n, r) ∈ ents → ∀ G, G0 ≤ G → rewriteT G r (payloadOf b.length r n b) = .ok (A n))
+    (I : Nat → Nat) (E : Nat → Option Val)
+    (hsem : ∀ n r, (n, r) ∈ ents → ∃ a o t, Lemmas.ProtoRewriteSpec.Valid (A n) a ∧ findField fs n = some (I n, o, t) ∧
+      ∀ vs, vs.length = fs.length → valsGet vs (I n) = valsGet (Spec.Protobuf.zeroFields fs) (I n) →
+        foldG fieldD fs a vs = some (match E n with | some x => valsSet vs (I n) x | none => vs))
+    (hsz : (20 + sumLen A ents) * (b.length + 1) < 2 ^ 64) :
+    ∃ out res', (∀ F, b.length + G0 + ents.length + 3 ≤ F → rewriteT F (.message len ents) b = .ok out) ∧
+      decode (.struct fs) out = some (.struct res') ∧ res'.length = fs.length ∧
+      (∀ j, (∀ n r, (n, r) ∈ ents → I n ≠ j) → valsGet res' j = valsGet res j) ∧
+      (∀ n r, (n, r) ∈ ents → valsGet res' (I n) = (E n).getD (valsGet (Spec.Protobuf.zeroFields fs) (I n))) ∧
+      out.length ≤ (20 + sumLen A ents) * (b.length + 1) :=
+  Lemmas.ProtoTemplate.tableT_rewrite_value fieldD fs (hD_fieldD fs) len ents b res hdec A G0 hlt hnd hA I E hsem hsz
+
+open Lemmas.ProtoTemplate Spec.Protobuf in
+/-- **`template_rewrite_value`: nested, repeated and map fields, any depth.** `fs` a Go message type of the universe `PresN d` (see
+Lemmas/ProtoTemplateNestedDefs.lean: singular scalars of the 15 kinds; singular sub-messages, plain or behind pointers; repeated
+scalars; repeated messages `[]Sub` / `[]*Sub`; maps with a scalar non-bytes key and a scalar or message value — all recursively, nesting depth ≤ d,
+as `tfs` presents them), `ms` the template object (distinct keys in every object, as the json decoder delivers them). If
+`ParseRewriteTemplate` accepts the template (`tree`), then on EVERY input `b` the reference decoder accepts — any field order,
+unknown fields, a sub-message split into SEVERAL occurrences — the rewriter returns `out`, the reference decoder accepts `out`, and
+`TRes`: every untemplated position is unchanged; a templated scalar reads as the value its member denotes; a templated sub-message is
+the OLD (merged) sub-message with the sub-template applied, recursively (`{"sub":{"a":9}}` replaces `sub.a` and keeps the rest of
+`sub`); a templated repeated field is the list of the values of the template's elements, each built from the zero value (`ElemVals`,
+`ElemMsgs`; elements denoting the zero value may be missing: known finding `proto-template-repeated-zero`); a templated map is rebuilt
+from the template's entries alone (`MapVals`, `mapVal`). Size and fuel bounds: `gmsSz`, `gmsFuel` (computable from the template and
+`b.length`). -/
+theorem template_rewrite_value_nested (pf : PF) (hpf : PFok pf) (d : Nat) (fs : Fields) (tfs : TFields) (hP : PresN d fs tfs)
+    (ms : Model.Json.GMs) (hnd : KeysNodup ms) (hndd : KeysNodupMs ms) (fuel : Nat) (tree : RwT)
+    (hparse : parseTemplate pf fuel (.msg tfs) (.obj ms) [] = .ok tree)
+    (b : Bytes) (res : Vals) (hsz : gmsSz (b.length + 1) ms < 2 ^ 64)
+    (hdec : decode (.struct fs) b = some (.struct res)) :
+    ∃ out res', (∀ F, b.length + gmsFuel (b.length + 1) ms ≤ F → rewriteT F tree b = .ok out) ∧
+      decode (.struct fs) out = some (.struct res') ∧ TRes pf d fs tfs ms res res' ∧ out.length ≤ gmsSz (b.length + 1) ms :=
+  Lemmas.ProtoTemplate.template_rewrite_value_nested pf hpf d fs tfs hP ms hnd hndd fuel tree hparse b res hsz hdec
+
+open Lemmas.ProtoTemplate in
+/-- the universe hypothesis `PresN` is DECIDABLE: `presNCheck` walks the presented type; Lemmas/ProtoTemplatePresCheck.lean evaluates
+it (`#guard`) on what the model of `proto.TypeOf` presents for protoc-style tagged Go types (varint / zigzag32 / fixed32 scalars, `*Sub`,
+`[]int32`, `[]Sub`, `map[string]int32`, `map[string]*Sub`, three nesting levels, untagged fields): accepted; a `repeated fixed32` field
+is REJECTED (TypeOf presents it as uint32 — the fixed-width adjustment is skipped for repeated fields — while the wire format is
+fixed32: there the theorem does not apply, and the rewritten message is indeed not decodable by the reference decoder). -/
+theorem template_universe_decidable (d : Nat) (fs : Fields) (tfs : TFields) (h : presNCheck d fs tfs = true) :
+    PresN d fs tfs :=
+  Lemmas.ProtoTemplate.presN_of_check d fs tfs h
+
+open Lemmas.ProtoTemplate Spec.Protobuf in
+/-- **`template_rewrite_value` against the independent specification `Spec.ProtoTemplate.applyTemplate`.** Universe `PresB d`
+(Lemmas/ProtoTemplateBridge.lean): every field's specification-side name (`name=` of the tag, else the Go name) is a presented name
+resolving to that field; singular scalars of the 15 kinds, singular sub-messages (plain `Sub` or behind one pointer `*Sub`: an absent
+sub-message and one with all fields at their defaults are the same value, `normPresence`), repeated scalars, repeated messages `[]Sub` /
+`[]*Sub`, maps `map[string]scalar` (entries compared after sorting by key: `canon`), any nesting depth.
+`PFnz`: the template has no `-0` float literal (a `-0` is elided like `0` and reads back as `+0`: recorded behaviour). `ZeroFree`: no
+element of a repeated-field template denotes the zero value — excludes EXACTLY the known finding `proto-template-repeated-zero`.
+If `ParseRewriteTemplate` accepts the template and the specification assigns a result `want` to the decoded input, then on EVERY
+decodable input the rewriter's output decodes to a value with the same comparison form as `want`:
+`norm (decode ty out) = norm (applyTemplate pf ty j [] (decode ty b))`. -/
+theorem template_rewrite_value_spec (pf : PF) (hpf : PFok pf) (hnz : PFnz pf) (d : Nat) (fs : Fields) (tfs : TFields)
+    (hB : PresB d fs tfs) (ms : Model.Json.GMs) (hnd : KeysNodup ms) (hndd : KeysNodupMs ms) (hzf : ZeroFree pf d fs tfs ms)
+    (fuel : Nat) (tree : RwT) (hparse : parseTemplate pf fuel (.msg tfs) (.obj ms) [] = .ok tree)
+    (b : Bytes) (res : Vals) (hsz : gmsSz (b.length + 1) ms < 2 ^ 64) (hdec : decode (.struct fs) b = some (.struct res))
+    (want : Val) (happ : Spec.ProtoTemplate.applyTemplate pf (.struct fs) (.obj ms) [] (.struct res) = some want) :
+    ∃ out v', (∀ F, b.length + gmsFuel (b.length + 1) ms ≤ F → rewriteT F tree b = .ok out) ∧
+      decode (.struct fs) out = some v' ∧
+      Spec.ProtoTemplate.norm (.struct fs) v' = Spec.ProtoTemplate.norm (.struct fs) want :=
+  Lemmas.ProtoTemplate.template_rewrite_value_spec pf hpf hnz d fs tfs hB ms hnd hndd hzf fuel tree hparse b res hsz hdec want happ
 
 open Lemmas.ProtoTemplate in
 /-- **template_rejects (1)**: a template naming a field the message type does not have is never accepted — whatever the
@@ -222,6 +321,52 @@ theorem bitor_value_uint64 (mask old : BitVec 64) (f : Nat) :
 theorem bitor_value_absent (mask : BitVec 64) (f : Nat) :
     bitOrRewrite .i64 mask .int64 f [] = .ok (fieldVarint f mask) :=
   Lemmas.ProtoTemplate.bitor_absent mask f
+
+open Lemmas.ProtoTemplate Lemmas.ProtoRewriteSpec Spec.Protobuf in
+/-- **`template_rewrite_value` WITH `BitOr` rules, flat messages** (any number of templated scalar fields of the 15 kinds, some of them
+under a `BitOr[T]` rule). `BitOrOK`: the ruled field is a plain varint integer and `T` is its Go type (int64/int, uint64/uint, int32,
+uint32 — the zig-zag and fixed-width variants are the known finding `proto-bitor-zigzag-fixed`, a mismatched `T` is API misuse).
+`Once`: every ruled field occurs AT MOST ONCE in the input — necessary, see `bitor_first_occurrence_wrong`. Then the output decodes,
+every unruled templated field reads as the value its member denotes, every ruled field as `old ||| mask` in the width of the field
+(`Spec.ProtoTemplate.orInt`, `old` = its decoded value, 0 if absent), every other position is unchanged. -/
+theorem template_rewrite_value_bitor_flat (pf : PF) (hpf : PFok pf) (fs : Fields) (tfs : TFields) (hP : PresOK fs tfs)
+    (rules : List Rules) (ms : Model.Json.GMs) (hnd : KeysNodup ms)
+    (hstr : ∀ k jv s, GMem k jv ms → gvString jv = some s → s.length < 2 ^ 64)
+    (hrules : ∀ k jv, GMem k jv ms → findRule rules k = none ∨ ∃ T, findRule rules k = some (.bitOr T) ∧
+      ∀ n rep kind i o t, lookupFieldByName tfs k = some (n, rep, .prim kind) → findField fs n = some (i, o, t) →
+        BitOrOK kind T t)
+    (fuel : Nat) (tree : RwT) (hparse : parseTemplate pf fuel (.msg tfs) (.obj ms) rules = .ok tree)
+    (b : Bytes) (recs0 : List (Nat × WireVal)) (hv : Valid b recs0) (res : Vals)
+    (honce : ∀ k jv n rep tt T, GMem k jv ms → findRule rules k = some (.bitOr T) →
+      lookupFieldByName tfs k = some (n, rep, tt) → Once n recs0)
+    (hsz : (20 + gmLen ms * (30 + tmplSize ms)) * (b.length + 1) < 2 ^ 64)
+    (hdec : decode (.struct fs) b = some (.struct res)) :
+    ∃ out res', (∀ F, b.length + gmLen ms + 5 ≤ F → rewriteT F tree b = .ok out) ∧
+      decode (.struct fs) out = some (.struct res') ∧ res'.length = fs.length ∧
+      (∀ k jv n kind i o t, GMem k jv ms → findRule rules k = none →
+        lookupFieldByName tfs k = some (n, false, .prim kind) → findField fs n = some (i, o, t) →
+        ∃ x, leafVal pf kind jv = some x ∧ valsGet res' i = x) ∧
+      (∀ k jv n kind i o t T, GMem k jv ms → findRule rules k = some (.bitOr T) →
+        lookupFieldByName tfs k = some (n, false, .prim kind) → findField fs n = some (i, o, t) →
+        ∃ mask old ik, gvInt T jv = some mask ∧ t = .int ik ∧ valsGet res i = .int old ∧
+          valsGet res' i = .int (Spec.ProtoTemplate.orInt ik old mask)) ∧
+      (∀ j, (∀ k jv n rep tt i o t, GMem k jv ms → lookupFieldByName tfs k = some (n, rep, tt) →
+        findField fs n = some (i, o, t) → i ≠ j) → valsGet res' j = valsGet res j) :=
+  Lemmas.ProtoTemplate.template_rewrite_value_bitor_flat pf hpf fs tfs hP rules ms hnd hstr hrules fuel tree hparse b recs0 hv res
+    honce hsz hdec
+
+open Lemmas.ProtoTemplate Spec.Protobuf in
+/-- **negative witness (NEW finding, `vh exec proto.tmplvalue "st 1 f A - 0 i64" 7b2241223a317d "rules 1 41 bitor i64" - 08040802`):
+a `BitOr`-ruled scalar field that occurs more than once in the input.** `struct{A int64}`, template `{"A":1}`, rule `BitOr[int64]`,
+input `08 04 08 02` (A = 4 then A = 2: the message value is A = 2, last one wins, also for `proto.Unmarshal`): the rewriter ORs the
+mask into the FIRST occurrence and drops the later ones — output `08 05` (A = 5) where `old ||| mask = 3`. Model = implementation. -/
+theorem bitor_first_occurrence_wrong :
+    parseTemplate (fun _ _ => none) 6 (.msg exBoT) (.obj exBoMs) exBoRules = .ok exBoTree ∧
+    decode (.struct exBo) [0x08, 0x04, 0x08, 0x02] = some (.struct (.cons (.int 2) .nil)) ∧
+    rewriteT 10 exBoTree [0x08, 0x04, 0x08, 0x02] = .ok [0x08, 0x05] ∧
+    decode (.struct exBo) [0x08, 0x05] = some (.struct (.cons (.int 5) .nil)) ∧
+    Spec.ProtoTemplate.orInt .i64 2 1 = 3 :=
+  Lemmas.ProtoTemplate.bitor_repeated_occurrence_wrong
 
 /-- **negative witness (known finding `proto-bitor-zigzag-fixed`)**: on a zig-zag field the code ORs the mask into the
 zig-zag IMAGE and zig-zags again; a `sint64` field holding 3 with mask 1 does not become `3 ||| 1` -/
